@@ -297,7 +297,6 @@ static void judge(Ctx& ctx, const Case& c, bool from_replay) {
     if (small) ex = pr.on || pr.d <= tm ? EX_NONE : (pr.w != 0 ? EX_IN : EX_OUT);
     else ex = expectation(jt, delta, tm, k, conv, pr);
     if (ex == EX_NONE) { ++band; continue; }
-    if (ex == EX_IN) ++jin; else ++jout;
     bool onR = false;
     int W = winding(R, q, &onR);
     if (!onR && W != 0 && W != sigma) {
@@ -306,6 +305,7 @@ static void judge(Ctx& ctx, const Case& c, bool from_replay) {
       return;
     }
     if (onR) { ctx.count("samples_on_a_result_edge_not_judged"); continue; }   // boundaries are judged by the vertex check above
+    if (ex == EX_IN) ++jin; else ++jout;
     bool bad = ex == EX_IN ? W != sigma : W != 0;
     if (!bad) continue;
     ld sd = offs::signed_dist(pr);
